@@ -23,7 +23,7 @@ ASSUMPTIONS = ["nvmon.ref exact reference model", "only removable knots are remo
                "meeting point (reported as max_conditioning_factor_applied; 1..3 in practice) - not by what Algorithm A5.8 as printed amplifies"]
 FLOORS = {'quick': {'removal': 300, 'probe-lib': 3000, 'probe-defn': 3000, 'structure': 300, 'restored': 120},
           'thorough': {'removal': 4000, 'probe-lib': 40000, 'restored': 1500}}
-MANDATORY_TAGS = ['large', 'pdim1', 'pdim2', 'pdim3', 'rational', 'multi-dir-one-call', 'partial-removal', 'full-removal', 'after-refine', 'interleaved',
+MANDATORY_TAGS = ['helper-default:ulp-below', 'large', 'pdim1', 'pdim2', 'pdim3', 'rational', 'multi-dir-one-call', 'partial-removal', 'full-removal', 'after-refine', 'interleaved',
                   'via:method', 'via:operations', 'dir:u', 'dir:v', 'dir:w', 'on-knot', 'in-span', 'caller-value-removal', 'big-coordinates', 'tuple-knot-vector', 'unclamped', 'on-domain-end', 'short-knot-range', 'multiplicity-p+1-removal']
 TECHNIQUE = ("runtime monitoring: shadow-model oracle (exact reference of the original definition + remembered original control "
              "points) evaluated after every removal step of a seeded insert/refine/remove history")
@@ -65,6 +65,7 @@ def gen(rng, tier, shard, nshards):
             sd2 = G.rand_shape(rng, pd, clamped_only=True, mindeg=2, **kw)
             yield {'kind': 'history', 'sd': sd2, 'seed': rng.randrange(1 << 30) | 1, 'mode': rng.choice(['single', 'single', 'two']),
                    'uservalue': True}
+            yield {'kind': 'helper-default', 'seed': rng.randrange(1 << 30)}
             # the same on a curve through the METHOD route with small decimal values (1/300: the object stores another double)
             sd5 = G.rand_shape(rng, 1, clamped_only=True, mindeg=2, maxextra=5, normalize=True)
             yield {'kind': 'history', 'sd': sd5, 'seed': rng.randrange(1 << 30) | 1, 'mode': 'single', 'uservalue': True, 'method_only': True}
@@ -239,7 +240,49 @@ def check_full_plus_one(case, ctx, rng):
     ctx.nontriv(True)
 
 
+def check_helper_default(case, ctx):
+    """helpers.knot_insertion then helpers.knot_removal with the same parameter and count, both left to work out multiplicity and span
+    themselves: the control points come back - also for a parameter that is an existing knot up to rounding"""
+    import math
+    from collections import Counter
+    from geomdl import helpers
+    rng = random.Random(case['seed'])
+    p = rng.randint(2, 5)
+    n = p + 2 + rng.randint(0, 6)
+    U = G.knot_vector(rng, p, n, rng.choice(['uniform', 'random', 'random']), rng.choice([(0.0, 1.0), (0.0, 1.0), (2.0, 5.0)]))
+    cnt = Counter(U)
+    inner = [k for k in sorted(set(U[p + 1:n])) if cnt[k] <= p - 1]
+    how = rng.choice(['exact', 'ulp-below', 'ulp-above', 'new'])
+    if how == 'new' or not inner:
+        how = 'new'
+        d_ = sorted(set(U))
+        i_ = rng.randrange(len(d_) - 1)
+        u = d_[i_] + rng.uniform(0.2, 0.8) * (d_[i_ + 1] - d_[i_])
+        k, s0 = u, 0
+    else:
+        k = rng.choice(inner)
+        s0 = cnt[k]
+        u = k if how == 'exact' else math.nextafter(k, -math.inf if how == 'ulp-below' else math.inf)
+    r = rng.randint(1, p - s0)
+    dim = rng.choice([2, 3])
+    P = [[rng.uniform(-10, 10) for _ in range(dim)] for _ in range(n)]
+    ctx.tag('helper-default', 'helper-default:' + how)
+    ctx.nontriv(True)
+    with hooks.suspended():
+        Q = helpers.knot_insertion(p, list(U), [list(q) for q in P], u, num=r)
+        kvq = sorted(list(U) + [k] * r)
+        R = helpers.knot_removal(p, kvq, [list(q) for q in Q], u, num=r)
+    sc = max(1.0, max(abs(x) for q in P for x in q))
+    ok = len(R) == n and all(abs(a - b) <= 1e-8 * sc for q0, q1 in zip(P, R) for a, b in zip(q0, q1))
+    ctx.check(ok, 'helper-default/not-restored', 'helpers.knot_insertion(u=%r, num=%d) then helpers.knot_removal(u=%r, num=%d), both without s / '
+              'span (u is %s): %d control points, deviation %s' % (u, r, u, r, {'exact': 'an existing knot', 'new': 'a new knot'}.get(
+                  how, 'one ulp beside the knot %r' % k), len(R),
+                  max([abs(a - b) for q0, q1 in zip(P, R) for a, b in zip(q0, q1)]) if len(R) == n else 'n/a'), what='restored', kv=list(U))
+
+
 def check(case, ctx):
+    if case.get('kind') == 'helper-default':
+        return check_helper_default(case, ctx)
     from geomdl import operations
     sd = case['sd']
     if case.get('mode') == 'full-plus-one':
